@@ -416,11 +416,9 @@ impl LineSplitter {
             }
         }
 
-        // Add the last field
-        if start < line.len() {
-            if let Ok(field) = std::str::from_utf8(&line.as_bytes()[start..]) {
-                self.buffer.push(field.to_string());
-            }
+        // Add the last field (possibly empty, as str::split does for "a," and "")
+        if let Ok(field) = std::str::from_utf8(&line.as_bytes()[start..]) {
+            self.buffer.push(field.to_string());
         }
     }
 }
